@@ -162,6 +162,9 @@ func (r *Report) finish(start time.Time, c *Ctx) int {
 	})
 
 	known := loadKnown()
+	if os.Getenv("GZCHECK_CHILD") != "" {
+		known = nil // self-test child runs judge a mutated scratch tree: nothing is suppressed
+	}
 	isKnown := func(o Obligation) *knownFinding {
 		for i := range known {
 			k := &known[i]
